@@ -513,6 +513,21 @@ var c09ProjectWorlds = []c09PWorld{
 		"sdef.lua": "function sfoo(x) end\n", "sb.lua": "function sfoo(x, y) end\n", "suse.lua": "local function f()\n  sfoo(1)\nend\nf()\n",
 		"sextra.lua": "require(\"sextra2\")\n", "sextra2.lua": "local z = 1\nprint(z)\n"},
 		open: "sdef.lua", probes: []c09Probe{{"sdef.lua", 0, 10, "sfoo"}}},
+	// (5) a file two entry files require, whose diagnostics differ between the two projects (one defines _G.tG1 before the
+	// require, the other does not): the file shows the union, whichever project is visited first
+	{files: map[string]string{
+		"luahelper.json": "{\"BaseDir\":\"./\",\"ProjectFiles\":[\"t1.lua\",\"t2.lua\"],\"ShowWarnFlag\":1}",
+		"t1.lua":         "_G.tG1 = 1\nrequire(\"tshared\")\n", "t2.lua": "require(\"tshared\")\n",
+		"tshared.lua": "print(tG1, tnodef2)\n"},
+		open: "tshared.lua", probes: []c09Probe{{"tshared.lua", 0, 7, "tG1"}},
+		expect: map[string][]string{"diag:tshared.lua": {"var not define: tG1", "tnodef2. <process entry file: t1.lua>"}}},
+	// (6) two variables declared on the line below a ---@class: the class belongs to the first one (column order), not to
+	// whichever the map iteration yields first
+	{files: map[string]string{
+		"luahelper.json": "{\"ProjectFiles\":[\"u.lua\"],\"ShowWarnFlag\":1}",
+		"u.lua":          "---@class UFoo\nlocal ua, ub = { x = 1 }, { y = 2 }\n---@type UFoo\nlocal uf\nprint(uf.x, uf.y)\n"},
+		open: "u.lua", probes: []c09Probe{{"u.lua", 4, 9, "uf.x"}, {"u.lua", 4, 15, "uf.y"}},
+		expect: map[string][]string{"def:uf.x": {"u.lua:2:17"}}},
 }
 
 type c09Probe struct {
@@ -524,6 +539,8 @@ type c09PWorld struct {
 	files  map[string]string
 	open   string
 	probes []c09Probe
+	// observation key -> text that every run's observation must contain (deterministic AND right)
+	expect map[string][]string
 }
 
 func c09ProjectMode(res *lib.Result, wi, reps int) error {
@@ -595,6 +612,18 @@ func c09ProjectWorld(res *lib.Result, wi, reps int, world c09PWorld) error {
 		sess.Close()
 		os.RemoveAll(dir)
 		res.Dist("runs.project-mode")
+		ekeys := make([]string, 0, len(world.expect))
+		for k := range world.expect {
+			ekeys = append(ekeys, k)
+		}
+		sort.Strings(ekeys)
+		for _, k := range ekeys {
+			for _, want := range world.expect[k] {
+				if !strings.Contains(obs[k], want) {
+					res.AddViolation("impl-vs-spec", fmt.Sprintf("%s = %q does not contain %q", k, obs[k], want), caseText, false)
+				}
+			}
+		}
 		if first == nil {
 			first = obs
 			res.Count(worldText.String()+fmt.Sprint(wi), true)
